@@ -36,6 +36,7 @@ import (
 	"github.com/prometheus/alertmanager/provider/mem"
 	"github.com/prometheus/alertmanager/types"
 
+	"verifharness/appsys"
 	"verifharness/vh"
 	"verifharness/vhm"
 )
@@ -1169,6 +1170,11 @@ func runCase(t *testing.T, run *vh.Run, c *Case, withDispatcher bool) {
 func TestCheck(t *testing.T) {
 	env := vh.GetEnv()
 	run := vh.NewRun(env, "AM.Run.C07Run")
+	// app engine: the REAL application wiring (package app) in real time, in its own process; reports through run.
+	// true = the replay file held an app-engine case and has been handled.
+	if appsys.Part(t, env, run, "C07") {
+		return
+	}
 	var cases []Case
 	if env.Replay != "" {
 		var c Case
